@@ -110,7 +110,12 @@ func runNative(ld *Loaded, cases []ReplayCase, race bool, isolate bool) (map[int
 			return results, log.String(), fmt.Errorf("building the native replay binary for %s failed: %v", rel, err)
 		}
 		runLoops := func(casePath string, loops int) ([]byte, error) {
-			c := exec.Command(bin, "-test.run", "^TestVerifReplay$", "-test.v", "-test.timeout", "20m")
+			// (a single isolated case runs for seconds; a deadlocked one must not hold the check for long)
+			limit := "20m"
+			if isolate {
+				limit = "3m"
+			}
+			c := exec.Command(bin, "-test.run", "^TestVerifReplay$", "-test.v", "-test.timeout", limit)
 			c.Dir = dir
 			c.Env = append(append([]string{}, env...), "VERIF_REPLAY_FILE="+casePath, fmt.Sprintf("VERIF_PAR_LOOPS=%d", loops))
 			return c.CombinedOutput()
@@ -161,7 +166,8 @@ func runNative(ld *Loaded, cases []ReplayCase, race bool, isolate bool) (map[int
 					}
 					return len(probe.Failed) > 0 || probe.Panic != ""
 				}
-				for rep := 0; c.Repeat > 0 && rep < c.Repeat && !hit(out); rep += 8 {
+				hung := bytes.Contains(out, []byte("test timed out"))
+				for rep := 0; c.Repeat > 0 && rep < c.Repeat && !hit(out) && !hung; rep += 8 {
 					var bmu sync.Mutex
 					var bwg sync.WaitGroup
 					for b := 0; b < 8; b++ {
@@ -172,6 +178,9 @@ func runNative(ld *Loaded, cases []ReplayCase, race bool, isolate bool) (map[int
 							bmu.Lock()
 							if hit(o) && !hit(out) {
 								out = o
+							}
+							if bytes.Contains(o, []byte("test timed out")) {
+								hung = true // a run that deadlocked: stop repeating
 							}
 							bmu.Unlock()
 						}()
